@@ -183,17 +183,21 @@ Proof.
   intros R pre post T p ms E Hm.
   destruct (at_event _ _ _ _ _ R E) as (v & v' & [G A] & St).
   cbn [vstep] in St. destruct St as [Hg _]. cbn [told_guard] in Hg.
-  pose proof (A T) as HTc. destruct (t_muts _ _ _ HTc _ _ Hm) as (Hh & Hp & _).
+  pose proof (A T) as HTc. destruct (t_muts _ _ _ HTc _ _ Hm) as (Hh & Hp & Hl).
   apply orb_true_iff in Hg. destruct Hg as [Hg | Hg]; [apply orb_true_iff in Hg; destruct Hg as [Hg | Hg]|].
   - left. apply negb_true_iff, N.eqb_neq in Hg.
     destruct (t_pcok _ _ _ HTc Hg) as (r & ks & Hi & Hk). rewrite Hp in Hk. exists r, (cn (vgetc v T) FPcOk), ks. split; assumption.
   - right. left. apply negb_true_iff, N.eqb_neq in Hg.
     destruct (t_1pc _ _ _ HTc Hg) as (r & ks & m & Hi). exists r, ks, m, (cn (vgetc v T) F1pcTs). split; assumption.
   - right. right. apply andb_true_iff in Hg. destruct Hg as [Hg _].
+    apply andb_true_iff in Hg. destruct Hg as [Hg Hsub].
     apply andb_true_iff in Hg. destruct Hg as [Hg _].
-    apply andb_true_iff in Hg. destruct Hg as [Hg _].
-    unfold async_kept in Hg. apply andb_true_iff in Hg. destruct Hg as [Hg _].
-    apply fb_true in Hg. exact (t_trieda _ _ _ HTc Hg).
+    unfold async_kept in Hg. apply andb_true_iff in Hg. destruct Hg as [Hg Hfb].
+    apply fb_true in Hg. apply negb_true_iff, fb_false in Hfb.
+    split; [exact (t_trieda _ _ _ HTc Hg) |]. split; [| split].
+    + intros r' p' ks' a o m f secs Hi. destruct a; [reflexivity | exfalso]. exact (t_fbc1 _ _ _ HTc _ _ _ _ _ _ _ Hi Hfb).
+    + intros r' ks' o Hi. exact (t_fbc2 _ _ _ HTc _ _ _ Hi Hfb).
+    + intros k Hk. rewrite lock_keys_of_agrees, <- Hl in Hk. apply (subset_In _ _ Hsub) in Hk. exact (t_pwok _ _ _ HTc _ Hk).
 Qed.
 
 Theorem undetermined_only_if_holds evs s0 : run evs = Some s0 -> undetermined_only_if evs.
